@@ -20,7 +20,7 @@ for s in $seeds; do
   if ! git -C $MT/repo apply $d/patch.diff 2>/dev/null; then echo -e "$s\t-\t-\tpatch does not apply" >> $MT/results.tsv; continue; fi
   for id in $ids; do
     out=$(cd $MT/verif && VERIF_SEED=1 timeout 1500 ./check $id quick 2>&1); rc=$?
-    first=$(echo "$out" | grep -E '^violation|^regression' | head -1 | cut -c1-300)
+    first=$(echo "$out" | grep -a -E '^violation|^regression' | head -1 | tr '\t\n' '  ' | cut -c1-300)
     echo -e "$s\t$id\t$rc\t$first" >> $MT/results.tsv
     rm -f $MT/verif/replays/*/found-*.json
   done
